@@ -234,7 +234,9 @@ pub fn realise(d: &Desc, ch: &mut Choices, st: &mut RStats, rp: &RealiseParams) 
     if rp.wrap == 0 {
         return t;
     }
-    let text_ok = rp.text_routes && parseable(d);
+    // (the lexical parser backtracks: its cost explodes on deeply nested text, so the text routes are
+    //  taken for moderately sized descriptions only - the simulator must stay bounded)
+    let text_ok = rp.text_routes && parseable(d) && size(d) <= 40 && depth(d) <= 7;
     let w = rp.wrap;
     let wt = if text_ok { 2 * w } else { 0 };
     match ch.weighted(&[100, 3 * w, 3 * w, wt, wt]) {
